@@ -23,6 +23,12 @@ OUTCOMES = (
     ("list-items", "{ l { x y } a }", None, {"a": 1, "l": 1, "x": 1, "y": 1}, ("query", "parsing", "validation", "execution")),
     ("completion-error", "{ a sc o { x sc } b }", None, {"a": 1, "o": 1, "x": 1}, ("query", "parsing", "validation", "execution")),
     ("meta-fields", "{ __typename a o { __typename x } t: __type(name: \"Obj\") { name } }", None, {"a": 1, "o": 1, "x": 1}, ("query", "parsing", "validation", "execution")),
+    # (appended) selections switched off by @skip / @include: nothing (or nothing below a field) is left to execute, the stages still pair up
+    ("all-root-skipped", "{ a @skip(if: true) b @include(if: false) }", None, {"a": 1}, ("query", "parsing", "validation", "execution")),
+    ("all-root-skipped-by-variable", "query ($s: Boolean!) { a @skip(if: $s) ... @include(if: false) { b } }", {"s": True}, {"a": 1}, ("query", "parsing", "validation", "execution")),
+    ("nested-all-skipped", "{ a o { x @skip(if: true) y @include(if: false) } b }", None, {"a": 1, "o": 1, "x": 1}, ("query", "parsing", "validation", "execution")),
+    ("mutation-all-skipped", "mutation { m1 @skip(if: true) { x } m3 @include(if: false) }", None, {"m1": 1, "m3": 1, "x": 1}, ("query", "parsing", "validation", "execution")),
+    ("root-directive-null-variable", "query ($v: Boolean = true) { a @skip(if: $v) b }", {"v": None}, {"a": 1}, ("query", "parsing", "validation", "execution")),
 )
 
 
@@ -195,7 +201,7 @@ def _hooks(o: int, cfg: int, ni: int, nm: int, s0: int, s1: int, s2: int, s3: in
 CONDITIONS = [
     Cond(
         name="hooks", fn=_hooks, quick=300, thorough=900, per_path=60, shards_quick=16, shards_thorough=32,
-        bound="%d request outcomes (syntax / validation / variable error, unknown operation name, operation selected by name, document given as a parsed AST (valid / invalid), flat, nested and list success, "
+        bound="%d request outcomes (every root / nested selection switched off by @skip / @include, a directive evaluated with a null variable at the root, syntax / validation / variable error, unknown operation name, operation selected by name, document given as a parsed AST (valid / invalid), flat, nested and list success, "
               "partial failure with ResolverError, mutation, failing parent) x 4 configurations x separate resolver functions or ONE function object shared by every custom field (quick: shared only with one instrumentation and <= 1 middleware) " % len(OUTCOMES) +
               "x 1..3 stacked instrumentations x 0..3 middlewares (quick: not both > 1) x EVERY completion order "
               "x an extra stacked instrumentation that overrides only SOME hooks (%d patterns: each single hook, all but one, starts, ends, field hooks, stage hooks) at every stack position "
